@@ -53,6 +53,9 @@ both('conds', ['relation p(i32, i32)', 'relation o(Option<i32>, i32)', 'relation
       'res(x, z) <-- for z in 0..3, foo(x, y), bar(y, z)',
       'res(x, y) <-- foo(x, y), if x != y, bar(y, z), if z > x',
       'res(x, y) <-- if true, foo(x, y)',
+      'res(x, y) <-- foo(x, y) if x != y, bar(y, z) if z > x',
+      'res(x, y) <-- foo(x, y) let s = x + y if s > 2, bar(y, z)',
+      'q(*v) <-- p(x, y), o(w, y) if let Some(v) = w',
       'res(x, w) <-- foo(x, y), for w in 0..*y, if w > 1'], tags=['conds'])
 both('patarg', ['relation o(Option<i32>, i32)', 'relation q(i32)', 'relation k(i32)'],
      ['q(*v) <-- o(?Some(v), _)', 'q(*v) <-- k(x), o(?Some(v), x)'], tags=['patarg'])
@@ -154,3 +157,122 @@ for ds in ('eqrel', 'trrel', 'trrel_uf'):
 P('bin_eqrel_par', ['#[ds(eqrel)] relation r(i32, i32)', 'relation seed(i32, i32)', 'relation dom(i32)',
                     'relation o_none(i32, i32)', 'relation o_0(i32, i32)'],
   ['r(x, y) <-- seed(x, y)', 'o_none(x, y) <-- r(x, y)', 'o_0(x, y) <-- dom(x), r(x, y)'], macro='ascent_par', uses=BY, tags=['ds', 'eqrel'])
+
+# ================================================================ twins
+# ---- C-level: sugar that must expand to the same code as its hand expansion
+NODE = ['relation node(i32)', 'relation reach(i32, i32)', 'relation iso(i32)']
+both('t_neg_sugar', NODE, ['iso(x) <-- node(x), !reach(x, x)'], tags=['twin'], twin=('t_neg_core', 'C'))
+both('t_neg_core', NODE, ['iso(x) <-- node(x), agg () = not() in reach(x, x)'], tags=['twin'])
+both('t_wild_sugar', ['relation p(i32, i32, i32)', 'relation q(i32)', 'relation k(i32)'],
+     ['q(x) <-- p(x, _, _)', 'q(y) <-- k(x), p(x, _, y)'], tags=['twin'], twin=('t_wild_core', 'C'))
+both('t_wild_core', ['relation p(i32, i32, i32)', 'relation q(i32)', 'relation k(i32)'],
+     ['q(x) <-- p(x, a, b)', 'q(y) <-- k(x), p(x, a, y)'], tags=['twin'])
+both('t_pat_sugar', ['relation o(Option<i32>, i32)', 'relation q(i32)', 'relation k(i32)'],
+     ['q(*v) <-- o(?Some(v), _)', 'q(*v) <-- k(x), o(?Some(v), x)'], tags=['twin'], twin=('t_pat_core', 'C'))
+both('t_pat_core', ['relation o(Option<i32>, i32)', 'relation q(i32)', 'relation k(i32)'],
+     ['q(*v) <-- o(w, _) if let Some(v) = w', 'q(*v) <-- k(x), o(w, x) if let Some(v) = w'], tags=['twin'])
+both('t_rep_sugar', ['relation p(i32, i32)', 'relation foo(i32, i32)', 'relation bar(i32, i32)', 'relation q(i32)', 'relation res(i32, i32)'],
+     ['q(x) <-- p(x, x)', 'q(x) <-- p(x, x + 1)', 'q(x) <-- foo(x, y), p(y, x), if x > y', 'res(x, y) <-- foo(y, x), p(x, x)'],
+     tags=['twin'], twin=('t_rep_core', 'C'))
+both('t_rep_core', ['relation p(i32, i32)', 'relation foo(i32, i32)', 'relation bar(i32, i32)', 'relation q(i32)', 'relation res(i32, i32)'],
+     ['q(x) <-- p(x, w) if w.eq(&(x))', 'q(x) <-- p(x, w) if w.eq(&(x + 1))',
+      'q(x) <-- foo(x, y), p(y, x), if x > y', 'res(x, y) <-- foo(y, x), p(x, x)'], tags=['twin'])
+# a variable repeated ACROSS clauses becomes a lookup key (same query as an explicit equality test, different plan): both sides are
+# translation-validated against their own text (kind V), the texts are equivalent by construction
+both('t_rep2_sugar', ['relation foo(i32, i32)', 'relation bar(i32, i32)', 'relation res(i32, i32)'],
+     ['res(x, y) <-- foo(x, y), bar(y, y)', 'res(x, y) <-- foo(x, y), bar(y, 3)'], tags=['twin'], twin=('t_rep2_core', 'V'))
+both('t_rep2_core', ['relation foo(i32, i32)', 'relation bar(i32, i32)', 'relation res(i32, i32)'],
+     ['res(x, y) <-- foo(x, y), bar(y, w), if w.eq(&(y))', 'res(x, y) <-- foo(x, y), bar(y, w), if *w == 3'], tags=['twin'])
+P('t_redecl', ['relation edge(i32, i32) = vec![(9, 9)]', 'relation path(i32, i32)', 'relation edge(i32, i32) = vec![(1, 2)]'],
+  ['path(x, y) <-- edge(x, y)', 'path(x, z) <-- edge(x, y), path(y, z)'], tags=['twin'], twin=('t_redecl_last', 'C'))
+P('t_redecl_last', ['relation path(i32, i32)', 'relation edge(i32, i32) = vec![(1, 2)]'],
+  ['path(x, y) <-- edge(x, y)', 'path(x, z) <-- edge(x, y), path(y, z)'], tags=['twin'])
+P('t_redecl_clear', ['relation edge(i32, i32) = vec![(9, 9)]', 'relation path(i32, i32)', 'relation edge(i32, i32)'],
+  ['path(x, y) <-- edge(x, y)'], tags=['twin'], twin=('t_redecl_clear_last', 'C'))
+P('t_redecl_clear_last', ['relation path(i32, i32)', 'relation edge(i32, i32)'], ['path(x, y) <-- edge(x, y)'], tags=['twin'])
+
+# ---- C-level: packaging
+INP = 'pub static INPUT: [(i32, i32); 2] = [(1, 2), (2, 3)];'
+PK_RULES = ['edge(*a, *b) <-- for (a, b) in INPUT.iter()', 'path(x, y) <-- edge(x, y)', 'path(x, z) <-- edge(x, y), path(y, z)',
+            'cnt(c) <-- agg c = count() in path(_, _)']
+PK_DECLS = [E2, 'relation path(i32, i32)', 'relation cnt(usize)']
+P('pk_ascent', PK_DECLS, PK_RULES, pre=INP, tags=['twin'], twin=('pk_run', 'C'))
+P('pk_run', PK_DECLS, PK_RULES, macro='ascent_run', pre=INP, tags=['twin'])
+P('pk_ascent_par', PK_DECLS, PK_RULES, macro='ascent_par', pre=INP, tags=['twin'], twin=('pk_run_par', 'C'))
+P('pk_run_par', PK_DECLS, PK_RULES, macro='ascent_run_par', pre=INP, tags=['twin'])
+P('pk_init_ascent', ['relation edge(i32, i32) = vec![(1, 2), (2, 3)]', 'relation path(i32, i32)'],
+  ['path(x, y) <-- edge(x, y)', 'path(x, z) <-- edge(x, y), path(y, z)'], tags=['twin'], twin=('pk_init_run', 'C'))
+P('pk_init_run', ['relation edge(i32, i32) = vec![(1, 2), (2, 3)]', 'relation path(i32, i32)'],
+  ['path(x, y) <-- edge(x, y)', 'path(x, z) <-- edge(x, y), path(y, z)'], macro='ascent_run', tags=['twin'])
+# include_source at the start / in the middle / at the end vs pasted text
+SRC = 'ascent::ascent_source! { %s:\n      relation edge(i32, i32);\n      relation path(i32, i32);\n      path(x, y) <-- edge(x, y);\n   }'
+for pos, body, pasted in (
+        ('start', ['include_source!(SRCNAME);', 'relation extra(i32);', 'path(x, z) <-- edge(x, y), path(y, z);', 'extra(x) <-- path(x, _);'],
+         ['relation edge(i32, i32);', 'relation path(i32, i32);', 'path(x, y) <-- edge(x, y);', 'relation extra(i32);',
+          'path(x, z) <-- edge(x, y), path(y, z);', 'extra(x) <-- path(x, _);']),
+        ('mid', ['relation extra(i32);', 'include_source!(SRCNAME);', 'path(x, z) <-- edge(x, y), path(y, z);', 'extra(x) <-- path(x, _);'],
+         ['relation extra(i32);', 'relation edge(i32, i32);', 'relation path(i32, i32);', 'path(x, y) <-- edge(x, y);',
+          'path(x, z) <-- edge(x, y), path(y, z);', 'extra(x) <-- path(x, _);']),
+        ('end', ['relation extra(i32);', 'extra(x) <-- path(x, _);', 'path(x, z) <-- edge(x, y), path(y, z);', 'include_source!(SRCNAME);'],
+         ['relation extra(i32);', 'extra(x) <-- path(x, _);', 'path(x, z) <-- edge(x, y), path(y, z);', 'relation edge(i32, i32);',
+          'relation path(i32, i32);', 'path(x, y) <-- edge(x, y);'])):
+    for mac in ('ascent', 'ascent_par'):
+        sfx = pos + ('_par' if mac == 'ascent_par' else '')
+        nm = 'src_' + sfx
+        P('inc_' + sfx, [], [], macro=mac, pre=SRC % nm, body=['pub struct P;'] + [b.replace('SRCNAME', nm) for b in body], tags=['twin'],
+          twin=('inc_pasted_' + sfx, 'C'))
+        P('inc_pasted_' + sfx, [], [], macro=mac, body=['pub struct P;'] + pasted, tags=['twin'])
+
+# ---- L-level: expansions that re-partition rules
+both('t_mh_sugar', [E2, 'relation a(i32)', 'relation b(i32, i32)'],
+     ['a(x), b(y, x), a(y) <-- edge(x, y)', 'a(x), b(x, x) <-- a(y), edge(y, x)'], tags=['twin'], twin=('t_mh_core', 'L'))
+both('t_mh_core', [E2, 'relation a(i32)', 'relation b(i32, i32)'],
+     ['a(x) <-- edge(x, y)', 'b(y, x) <-- edge(x, y)', 'a(y) <-- edge(x, y)', 'a(x) <-- a(y), edge(y, x)', 'b(x, x) <-- a(y), edge(y, x)'], tags=['twin'])
+DJ = ['relation p(i32, i32)', 'relation s(i32, i32)', 'relation k(i32)', 'relation q(i32)']
+both('t_disj_sugar', DJ, [], body=['pub struct P;'] + [d + ';' for d in DJ] + [
+     'q(x) <-- p(x, y), (s(y, _) | k(y)), if *x > 0;',
+     'q(x) <-- (p(x, _) | (k(x), (s(x, _) | s(_, x))));',
+     'q(x) <-- (k(x) | p(x, _)), (s(x, x) | !k(x));'], tags=['twin'], twin=('t_disj_core', 'L'))
+both('t_disj_core', DJ,
+     ['q(x) <-- p(x, y), s(y, _), if *x > 0', 'q(x) <-- p(x, y), k(y), if *x > 0',
+      'q(x) <-- p(x, _)', 'q(x) <-- k(x), s(x, _)', 'q(x) <-- k(x), s(_, x)',
+      'q(x) <-- k(x), s(x, x)', 'q(x) <-- k(x), !k(x)', 'q(x) <-- p(x, _), s(x, x)', 'q(x) <-- p(x, _), !k(x)'], tags=['twin'])
+MC = [E2, 'relation k(i32)', 'relation r(i32, i32)', 'relation p(i32, i32)', 'relation a(i32)', 'relation b(i32, i32)']
+MACS = ['macro two_hop($a: expr, $b: expr) { edge($a, mid), edge(mid, $b) }',
+        'macro big($a: expr) { p($a, w), let w2 = w + 1, if w2 > 3 }',
+        'macro three_hop($a: expr, $b: expr) { two_hop!($a, m3), edge(m3, $b) }',
+        'macro both($x: expr) { a($x), b($x, $x) }',
+        'macro rel_of($r: ident, $x: expr) { $r($x, _) }']
+both('t_mac_sugar', MC, [], body=['pub struct P;'] + [d + ';' for d in MC] + MACS + [
+     'r(x, z) <-- two_hop!(x, y), two_hop!(y, z);',
+     'r(mid, z) <-- k(mid), two_hop!(mid, z);',
+     'r(x, z) <-- (two_hop!(x, y) | edge(x, y)), two_hop!(y, z);',
+     'a(x) <-- big!(x), big!(x);',
+     'r(x, z) <-- three_hop!(x, z), k(z);',
+     'both!(x) <-- edge(x, _);',
+     'a(x) <-- rel_of!(edge, x), rel_of!(p, x);',
+     'a(w) <-- k(w), big!(w);'], tags=['twin'], twin=('t_mac_core', 'L'))
+both('t_mac_core', MC,
+     ['r(x, z) <-- edge(x, m1), edge(m1, y), edge(y, m2), edge(m2, z)',
+      'r(mid, z) <-- k(mid), edge(mid, m1), edge(m1, z)',
+      'r(x, z) <-- edge(x, m1), edge(m1, y), edge(y, m2), edge(m2, z)',
+      'r(x, z) <-- edge(x, y), edge(y, m2), edge(m2, z)',
+      'a(x) <-- p(x, w), let w2 = w + 1, if w2 > 3, p(x, v), let v2 = v + 1, if v2 > 3',
+      'r(x, z) <-- edge(x, m1), edge(m1, m3), edge(m3, z), k(z)',
+      'a(x), b(x, x) <-- edge(x, _)',
+      'a(x) <-- edge(x, _), p(x, _)',
+      'a(w) <-- k(w), p(w, w1), let w2 = w1 + 1, if w2 > 3'], tags=['twin'])
+# ---- S-level: permutations / renamings (both sides are translation-validated; their specs are equal as sets)
+both('t_perm_rules', [E2, 'relation path(i32, i32)'], ['path(x, z) <-- edge(x, y), path(y, z)', 'path(x, y) <-- edge(x, y)'],
+     tags=['twin'], twin=('tc_lin', 'L'))
+both('t_perm_decls', ['relation path(i32, i32)', E2], ['path(x, y) <-- edge(x, y)', 'path(x, z) <-- edge(x, y), path(y, z)'],
+     tags=['twin'], twin=('tc_lin', 'C'))
+both('t_perm_heads', [E2, 'relation a(i32)', 'relation b(i32, i32)'],
+     ['a(y), a(x), b(y, x) <-- edge(x, y)', 'b(x, x), a(x) <-- a(y), edge(y, x)'], tags=['twin'], twin=('t_mh_sugar', 'L'))
+both('t_perm_body', [E2, 'relation c(i32, i32)', 'relation d(i32, i32)', 'relation out(i32, i32)'],
+     ['out(x, w) <-- d(z, w), c(y, z), edge(x, y), if x < w'], tags=['twin'], twin=('t_perm_body0', 'S'))
+both('t_perm_body0', [E2, 'relation c(i32, i32)', 'relation d(i32, i32)', 'relation out(i32, i32)'],
+     ['out(x, w) <-- edge(x, y), c(y, z), d(z, w), if x < w'], tags=['twin'])
+both('t_renamed', ['relation kante(i32, i32)', 'relation weg(i32, i32)'],
+     ['weg(a, b) <-- kante(a, b)', 'weg(a, c) <-- kante(a, b), weg(b, c)'], tags=['twin'],
+     twin=('tc_lin', 'S', {'kante': 'edge', 'weg': 'path', 'a': 'x', 'b': 'y', 'c': 'z'}))
